@@ -279,6 +279,12 @@ func genReal(seed int64, idx int, profile string, poll int) scen.E2E {
 		cfg.CliPipelining = rng.Intn(3) != 0
 		p.Conns = 1 + rng.Intn(6)
 		p.NOps = 20 + rng.Intn(300)
+		if rng.Intn(2) == 0 {
+			// netpoll hands the readiness events of one connection to different
+			// goroutines only once many connections exist
+			p.Conns = 18 + rng.Intn(24)
+			p.NOps = 60 + rng.Intn(200)
+		}
 	case "streams":
 		p.Streams = 1 + rng.Intn(6)
 		p.Callers = rng.Intn(4)
